@@ -278,6 +278,9 @@ class Case(object):
         self.snapdir = os.path.join(self.dir, 'snap')
         self.trace = []
         self.known = []
+        self.stored_ci = 1          # last commit index whose store (.meta written and moved) completed
+        self.stored_ci_before = 1
+        self.pending_ci = None
 
     def snapshot(self, label, torn=None):
         d = os.path.join(self.snapdir, '%04d' % len(self.snaps))
@@ -312,6 +315,14 @@ class Case(object):
         else:
             self.snapshot(kind)
 
+    def allowed_commit_values(self, op, stored_before):
+        """Commit index values that may be read back after a kill inside `op`: the last value whose store
+        had completed before the op (1 if none ever was), or the value this op is storing."""
+        ok = {stored_before}
+        if op[0] == 'commit' and op[2]:
+            ok.add(op[1])
+        return ok
+
     def check_snapshots(self, op, P, commits_before, commits_after):
         for label, d in self.snaps:
             self.stats['kill_points'] += 1
@@ -335,8 +346,10 @@ class Case(object):
                 if not self.known:
                     self.known.append(v)
                 continue
-            if ci not in commits_after and ci not in commits_before:
-                raise V('commit_index_invented', 'kill at %s of %r: stored commit index %r was never set' % (label, short(op), ci), op=op[0])
+            if ci not in self.allowed_commit_values(op, self.stored_ci_before):
+                raise V('commit_index_invented', 'kill at %s of %r: reopened journal reports commit index %r; the last stored value was %r%s'
+                        % (label, short(op), ci, self.stored_ci_before, (', being stored: %r' % op[1]) if op[0] == 'commit' else ''),
+                        op=op[0], point=label.split('.')[0])
             self.fps.add(h32(op[0], label, len(P) > 0, len(ent)))
         shutil.rmtree(self.snapdir, ignore_errors=True)
 
@@ -356,12 +369,17 @@ class Case(object):
                     j._destroy()
                     j = J.FileJournal(self.path)
                     self.compare(j, model, commits, 'after reopen')
+                    if j.getRaftCommitIndex() != self.stored_ci:
+                        raise V('commit_index_after_reopen', 'after a clean reopen the journal reports commit index %r, the last stored value is %r'
+                                % (j.getRaftCommitIndex(), self.stored_ci))
+                    self.pending_ci = None
                     continue
                 P = list(model)
                 cb = set(commits)
                 enum = r.random() < self.enumerate_frac
                 self.snaps = []
                 self.nprim = 0
+                self.stored_ci_before = self.stored_ci
                 if enum:
                     HOOKS.cb = self.on_point
                 try:
@@ -371,6 +389,10 @@ class Case(object):
                 finally:
                     HOOKS.cb = None
                 apply_model(op, model, commits, None)
+                if op[0] == 'commit':
+                    self.pending_ci = op[1]
+                    if op[2]:
+                        self.stored_ci = op[1]
                 if op[0] == 'add':
                     fs = os.path.getsize(self.path)
                     if len(op[1]) > fs // 3:
